@@ -96,8 +96,12 @@ func translateFacts() (string, string) {
 	p("From Coq Require Import NArith List Bool. Import ListNotations. Open Scope N_scope.")
 	p("(* an emitting call site: Lit is_counter name | NonLit (name is not a string literal) *)")
 	p("Inductive site := Lit (is_counter : bool) (name : list N) | NonLit.")
-	walSites, err1 := scanSites("/repo")
-	vfySites, err2 := scanSites("/repo/verifier")
+	repo := os.Getenv("WH_REPO")
+	if repo == "" {
+		repo = "/repo"
+	}
+	walSites, err1 := scanSites(repo)
+	vfySites, err2 := scanSites(filepath.Join(repo, "verifier"))
 	if err1 != nil || err2 != nil {
 		p("(* scan failed: %v %v *)", err1, err2)
 		p("Definition wal_sites : list site := [NonLit].")
